@@ -117,6 +117,13 @@ class C11(core.Check):
         # string reallocation and compaction
         c.append({'ops': [['lets', 'Q$', 'one'], ['lete', 'X$', [2], 'two'], ['lets', 'Q$', 'three'],
                           ['lets', 'Z$', 'four'], ['lets', 'Q$', 'x'], ['fre'], ['dump'], ['clear'], ['dump']]})
+        # string variables typed by DEFSTR (written without a sigil): S = T must give S a copy of its own, so that
+        # MID$(S,..)= leaves T alone and the two descriptors hold different addresses (seed C11f)
+        c.append({'defstr': True,
+                  'ops': [['lets', 'Q$', 'hello'], ['copy', 'X$', [], 'Q$', []], ['dump'], ['midset', 'X$', [], 1, 'ZZ'],
+                          ['dump'], ['peekv', 'Q$', [], 1], ['peekv', 'X$', [], 1], ['copy', 'ZK$', [2], 'Q$', []],
+                          ['midset', 'Q$', [], 2, 'Q'], ['dump'], ['lets', 'W%', 5], ['lets', 'V', [1, 2, 3, 129]],
+                          ['dump']]})
         # SWAP whose second operand is an element of a not yet dimensioned string array, with too little memory
         # for the implicit DIM: the collector runs inside SWAP and moves the first operand's text (seed C11e)
         c.append({'ops': [['clearmem', 4720 + 514 + 115], ['lets', 'Q$', 'gggggggg'], ['lets', 'X$', 'AAAAA'],
@@ -148,10 +155,11 @@ class C11(core.Check):
         hist = {'ops': 0}
         for k in range(n):
             ops = self.pressure_ops(rng) if k % 7 == 3 else self.hist_ops(rng)
+            defstr = k % 7 != 3 and rng.random() < 0.4
             for o in ops:
                 hist[o[0]] = hist.get(o[0], 0) + 1
             hist['ops'] += len(ops)
-            out.append({'ops': ops})
+            out.append({'ops': ops, 'defstr': True} if defstr else {'ops': ops})
         self.histogram = hist
         return out
 
@@ -287,11 +295,26 @@ class C11(core.Check):
             elif r < 0.93:
                 nm, idx = cell()
                 ops.append(['peekv', nm, idx, rng.randrange(au.SIZE[canon(nm)[-1]])])
+            elif r < 0.965:
+                # T$ = text : S$ = T$ (bare variable on the right) : MID$(..)= modifies one of them in place
+                sv = [x for x in scal if canon(x)[-1] == '$']
+                sa = [x for x in arrs if canon(x)[-1] == '$' and ranks[x] == 1]
+                if sv:
+                    t = rng.choice(sv)
+                    ops.append(['lets', t, ''.join(rng.choice('abcxyz') for _ in range(rng.randint(3, 7)))])
+                    others = [(x, []) for x in sv if canon(x) != canon(t)] + [(x, [rng.randint(1, 2)]) for x in sa]
+                    if others:
+                        d, di = rng.choice(others)
+                        ops.append(['copy', d, di, t, []])
+                        ops.append(['dump'])
+                        if rng.random() < 0.7:
+                            v, vi = rng.choice([(d, di), (t, [])])
+                            ops.append(['midset', v, vi, rng.randint(1, 2), rng.choice(['Z', 'ZZ', 'QQQ'])])
             else:
                 ops.append(['fre'])
-            if ops[-1][0] in ('lets', 'lete', 'dim', 'erase', 'swap', 'clear', 'fre'):
+            if ops and ops[-1][0] in ('lets', 'lete', 'dim', 'erase', 'swap', 'clear', 'fre', 'copy', 'midset'):
                 ops.append(['dump'])
-        if ops[-1][0] != 'dump':
+        if not ops or ops[-1][0] != 'dump':
             ops.append(['dump'])
         return ops
 
@@ -303,8 +326,21 @@ class C11(core.Check):
         return self._traces[key]
 
     @staticmethod
-    def ref(nm, idx):
+    def ref0(nm, idx):
         return nm + (au.subs(idx) if idx else '')
+
+    DEFSTR = 'DEFSTR Q,X,Z,J,K,V,W'
+
+    def ref(self, nm, idx):
+        return self.w(nm) + (au.subs(idx) if idx else '')
+
+    def w(self, nm):
+        """the name as written in the statement: in a DEFSTR case string variables carry NO sigil (their type
+        comes from DEFSTR) and every other variable an explicit one"""
+        if not self._defstr:
+            return nm
+        c = canon(nm)
+        return c[:-1] if c[-1] == '$' else c
 
     def _snapshot(self, s):
         """whole variable area through Memory._get_memory (what PEEK returns), plus string bytes"""
@@ -353,9 +389,12 @@ class C11(core.Check):
         ref = RefVars()
         tr = []
         last_str = [None]
+        self._defstr = bool(case.get('defstr'))
+        if self._defstr:
+            self.sess.run(self.DEFSTR)
 
         def vexpr(nm, idx, val):
-            e = au.value_expr(canon(nm), val, last_str[0], computed=True)
+            e = au.value_expr(canon(nm), val, self.w(last_str[0]) if last_str[0] else None, computed=True)
             if canon(nm)[-1] == '$' and val != '' and not idx:
                 last_str[0] = nm
             elif canon(nm)[-1] == '$' and val != '':
@@ -377,25 +416,38 @@ class C11(core.Check):
                     nm, val = op[1], op[2]
                     targets.add(canon(nm))
                     stringy = canon(nm)[-1] == '$'
-                    rec['err'], _ = self.sess.run('%s=%s' % (nm, vexpr(nm, [], val)))
+                    rec['err'], _ = self.sess.run('%s=%s' % (self.w(nm), vexpr(nm, [], val)))
                     if not rec['err']:
                         rec['b'] = list(bytearray(m.scalars.view_buffer(canon(nm).encode('ascii'))))
                 elif kind == 'lete':
                     nm, idx, val = op[1], op[2], op[3]
                     targets.add(canon(nm))
                     stringy = canon(nm)[-1] == '$'
-                    rec['err'], _ = self.sess.run('%s%s=%s' % (nm, au.subs(idx), vexpr(nm, idx, val)))
+                    rec['err'], _ = self.sess.run('%s%s=%s' % (self.w(nm), au.subs(idx), vexpr(nm, idx, val)))
                     if not rec['err']:
                         rec['b'] = list(bytearray(m.arrays.view_buffer(canon(nm).encode('ascii'), list(idx))))
                 elif kind == 'dim':
-                    rec['err'], _ = self.sess.run('DIM ' + ','.join(nm + au.subs(d) for nm, d in op[1]))
+                    rec['err'], _ = self.sess.run('DIM ' + ','.join(self.w(nm) + au.subs(d) for nm, d in op[1]))
                 elif kind == 'erase':
-                    rec['err'], _ = self.sess.run('ERASE ' + ','.join(op[1]))
+                    rec['err'], _ = self.sess.run('ERASE ' + ','.join(self.w(nm) for nm in op[1]))
                 elif kind == 'base':
                     rec['err'], _ = self.sess.run('OPTION BASE %d' % op[1])
                 elif kind == 'clear':
                     rec['err'], _ = self.sess.run('CLEAR')
                     last_str[0] = None
+                    if self._defstr:
+                        self.sess.run(self.DEFSTR)
+                elif kind == 'copy':
+                    # string assignment from a bare variable: the target must get a copy of its own
+                    n1, i1, n2, i2 = op[1], op[2], op[3], op[4]
+                    targets.add(canon(n1))
+                    stringy = True
+                    rec['err'], _ = self.sess.run('%s=%s' % (self.ref(n1, i1), self.ref(n2, i2)))
+                elif kind == 'midset':
+                    # MID$(v, pos) = text : modification in place
+                    targets.add(canon(op[1]))
+                    stringy = True
+                    rec['err'], _ = self.sess.run('MID$(%s,%d)="%s"' % (self.ref(op[1], op[2]), op[3], op[4]))
                 elif kind == 'clearmem':
                     # CLEAR ,n : sets the memory size - the cheap way to work under memory pressure
                     pressure = True
@@ -427,6 +479,10 @@ class C11(core.Check):
                     pass
                 else:
                     raise ValueError(kind)
+                if kind in ('copy', 'midset') and not rec['err']:
+                    cn = canon(op[1]).encode('ascii')
+                    rec['b'] = list(bytearray(m.arrays.view_buffer(cn, list(op[2])) if op[2]
+                                              else m.scalars.view_buffer(cn)))
                 # ---- phase 2: did a string collection run inside the statement?  (a descriptor of a string
                 # cell the statement does not assign changed, FRE, or check_free before Out of memory)
                 after = self._strings(m)
@@ -487,6 +543,24 @@ class C11(core.Check):
                             a, b = ref.get(c1, i1), ref.get(c2, i2)
                             ref.put(c1, i1, b)
                             ref.put(c2, i2, a)
+                elif kind == 'copy':
+                    c1, c2 = canon(op[1]), canon(op[3])
+                    rec['exp'] = ref.place(c1, op[2], free, False)
+                    if not rec['exp'] and op[4]:
+                        rec['exp'] = ref.arr.access(c2, op[4], free)
+                    if not rec['exp']:
+                        ref.put(c1, op[2], ref.get(c2, op[4]) if (op[4] or c2 in ref.scalars) else '')
+                elif kind == 'midset':
+                    c = canon(op[1])
+                    rec['exp'] = ref.place(c, op[2], free, False)
+                    if not rec['exp']:
+                        old = ref.get(c, op[2])
+                        if not 1 <= op[3] <= len(old):
+                            rec['exp'] = 5
+                        else:
+                            k = op[3] - 1
+                            t = op[4][:len(old) - k]
+                            ref.put(c, op[2], old[:k] + t + old[k + len(t):])
                 elif kind in ('varptr', 'varptrs', 'peekv'):
                     c = canon(op[1])
                     rec['exp'] = (0 if c in ref.scalars else 5) if not op[2] else ref.arr.access(c, op[2], free)
@@ -549,6 +623,14 @@ class C11(core.Check):
                 if v is None:
                     v = rec.get('b') or [0, 0, 0]
                 terms.append('VLetE %s %s %s %s' % (lim, au.cname(c), au.czl(op[2]), au.czl(v)))
+            elif kind in ('copy', 'midset'):
+                # the model sees the assignment of the descriptor the statement produced (opaque value)
+                c = canon(op[1])
+                v = rec.get('b') or [0, 0, 0]
+                if op[2]:
+                    terms.append('VLetE %s %s %s %s' % (lim, au.cname(c), au.czl(op[2]), au.czl(v)))
+                else:
+                    terms.append('VLetS %s %s %s' % (lim, au.cname(c), au.czl(v)))
             elif kind == 'dim':
                 terms.append('VDim %s [%s]' % (lim, ';'.join(
                     '(%s,%s)' % (au.cname(canon(nm)), au.czl(d)) for nm, d in op[1])))
@@ -619,6 +701,19 @@ class C11(core.Check):
                     if got != want:
                         return 'step %d %r: PEEK at VARPTR(%s%r)=%d gives %r, the value bytes are %r' % (
                             step, op, n, tup, p, got, want)
+            # distinct string cells must not share their characters (no aliasing in the string space)
+            spans = []
+            for (n, tup), val in rec['ref'].items():
+                if n[-1] == '$':
+                    p, _ch = rec['cells'][(n, tup)]
+                    d = sn['bytes'][p - lo:p + 3 - lo]
+                    if d[0] > 0:
+                        spans.append((d[1] + 256 * d[2], d[1] + 256 * d[2] + d[0], n, tup))
+            spans.sort()
+            for a, b in zip(spans, spans[1:]):
+                if a[1] > b[0]:
+                    return 'step %d %r: string cells %s%r and %s%r share their characters at %d..%d / %d..%d' % (
+                        step, op, a[2], a[3], b[2], b[3], a[0], a[1], b[0], b[1])
             ranges.sort()
             for a, b in zip(ranges, ranges[1:]):
                 if a[1] > b[0]:
